@@ -151,7 +151,7 @@ class C20(Prop):
                    "float (F) routines: same model term at a binary32 instance with the sub-expressions the C source evaluates in double; the real-number theorems are about "
                    "the shared generic definitions (LogSum/Log2Sum bounds proved for both windows, 500 and 50)",
                    "integer (I/L) routines modelled on unbounded Int: signed overflow is undefined behaviour in C and the generators stay in range",
-                   "not modelled: Set/Copy/Swap/Shuffle/Dump/Compare, esl_mat_* allocation routines (Create/GrowTo/Clone/Destroy), esl_avx/avx512 .c dump utilities"]
+                   "not modelled: Shuffle/Dump/Compare/W,B-Copy, esl_mat_* allocation routines (Create/GrowTo/Clone/Destroy), esl_avx/avx512 .c dump utilities"]
     rule = ("cases = op batches: every intrinsic of the table x lane views x immediates; every helper with the maximum in each lane, each boundary "
             "value in each lane, dense random lanes; logf/expf stratified over every exponent x boundary mantissas + threshold neighbourhoods + random; "
             "vector routines over lengths 0..1000 with ties, signed zeros, infinities, -inf log entries, spreads of hundreds of log units; "
@@ -434,6 +434,9 @@ class C20(Prop):
                             else: ops.append("vec op=%s%s x=%s" % (T, o, hx(T, v)))
                         w = self.rand_vec(rng, n, rng.choice(["uni", "ties", "wide"]), T)
                         ops.append("vec op=%sDot x=%s y=%s" % (T, hx(T, v), hx(T, w)))
+                        if rng.random() < 0.3: ops.append("vec op=%sSet x=%s s=%s" % (T, hx(T, v), sb(T, rng.choice([0.0, -1.5, 7.0]))))
+                        if rng.random() < 0.3: ops.append("vec op=%sCopy x=%s" % (T, hx(T, v)))
+                        if rng.random() < 0.3: ops.append("vec op=%sSwap x=%s y=%s" % (T, hx(T, v), hx(T, w)))
                         if rng.random() < 0.3: ops.append("vec op=%sAdd x=%s y=%s" % (T, hx(T, v), hx(T, w)))
                         if rng.random() < 0.3: ops.append("vec op=%sAddScaled x=%s y=%s s=%s" % (T, hx(T, v), hx(T, w), sb(T, rng.uniform(-3, 3))))
                     # probability vectors
@@ -497,6 +500,7 @@ class C20(Prop):
                     c = rng.choice([2, -3, 0, 7])
                     ops.append("vec op=%sScale x=%s k=%d" % (T, hv, c)); ops.append("vec op=%sIncrement x=%s k=%d" % (T, hv, c))
                     ops.append("vec op=%sAdd x=%s y=%s" % (T, hv, hw)); ops.append("vec op=%sAddScaled x=%s y=%s k=%d" % (T, hv, hw, c))
+                    ops.append("vec op=%sSet x=%s k=%d" % (T, hv, c)); ops.append("vec op=%sCopy x=%s" % (T, hv)); ops.append("vec op=%sSwap x=%s y=%s" % (T, hv, hw))
                     if T == "L": ops.append("vec op=LReverse x=%s" % hv)
                     ops.append("vec op=%sReverseInPlace x=%s" % (T, hv))
                     if T == "I":
